@@ -233,6 +233,56 @@ where
             }
             run.count("retries_after_out_of_data", retries as u64);
         }
+        // d4: going back with `clone_from(&snapshot)` (and `clone()`): decoding resumes at the
+        // snapshot's chunk
+        if m >= 2 {
+            let Some(mut c) = build::<W, S, P>(&data, compressed) else {
+                fail!("C14/undocumented-error", "third construction from the same data failed");
+            };
+            let a = rng.usize_in(0, m - 1);
+            let b = rng.usize_in(a + 1, m);
+            let mut snap = None;
+            for (i, mdl) in models.iter().enumerate().take(b) {
+                if i == a {
+                    snap = Some(c.clone());
+                }
+                if c.decode_symbol(*mdl).is_err() {
+                    fail!("C14/undocumented-error", "decode #{i} failed although the base run decoded {m} symbols");
+                }
+            }
+            let snap = snap.unwrap();
+            if rng.bool() {
+                c.clone_from(&snap);
+            } else {
+                c = snap.clone();
+            }
+            for (i, mdl) in models.iter().enumerate().skip(a).take(m - a) {
+                match c.decode_symbol(*mdl) {
+                    Ok(sy) if sy == base[i] => {}
+                    other => fail!("C14/restored-copy-shifts-chunks", "after decoding {b} symbols the coder was overwritten with a copy taken after {a} symbols; symbol #{i} then decodes as {other:?}, expected {}", base[i]),
+                }
+            }
+            run.count("restores_from_copies", 1);
+        }
+        // e: the decoding iterators driven through adaptors that skip (nth / skip / step_by): a
+        // skipped symbol still consumes its chunk
+        {
+            let Some(mut c) = build::<W, S, P>(&data, compressed) else {
+                fail!("C14/undocumented-error", "fourth construction from the same data failed");
+            };
+            let j = rng.usize_in(1, 3);
+            let got: Vec<Option<usize>> = match rng.below(3) {
+                0 => c.decode_symbols(models.iter().take(m).copied()).skip(j).map(|r| r.ok()).collect(),
+                1 => c.decode_symbols(models.iter().take(m).copied()).step_by(j + 1).map(|r| r.ok()).collect(),
+                _ => c.try_decode_symbols(models.iter().take(m).map(|x| Ok::<_, ()>(*x))).skip(j).map(|r| r.ok()).collect(),
+            };
+            let expect_skip: Vec<Option<usize>> = base.iter().skip(j).map(|&x| Some(x)).collect();
+            let expect_step: Vec<Option<usize>> = base.iter().step_by(j + 1).map(|&x| Some(x)).collect();
+            if got != expect_skip && got != expect_step {
+                fail!("C14/iterator-adaptor-shifts-chunks", "decode_symbols(..) driven through skip({j}) / step_by({}) yields {:?}; the symbols of the chunks are {:?}", j + 1, got, base);
+            }
+            run.count("iterator_adaptor_runs", 1);
+        }
         // d3: word source with transient read failures (words come in the order a Vec would pop them)
         let mut src: Vec<Result<W, &'static str>> = data.iter().rev().map(|&w| Ok(w)).collect();
         let head_words = (S::NBITS / W::NBITS) as usize;
